@@ -605,6 +605,11 @@ for _p, _names in (('C01', ('generated_header_deps_midrun', 'dyndep_single_edit'
     for _j in CHECKS[_p]['jobs']:
         if _j['name'] in _names: _j['thorough_only'] = True
 
+# the three-wide process-layer job of C05 does not fit its time limit when the machine is shared: the quick tier runs the same harness on the two-wide shape
+CHECKS['C05']['jobs'] += _real_runner(_mode_jobs('MODE_FAIL', [48], reach=('failed', 'retried', 'all-succeeded'), bounds='one invocation from the empty tree; any subset of commands fails with exit code 1..3 or dies by SIGSEGV/SIGKILL, touched or not; -k in {1,2,0}; -j in {1,2,3}'))
+for _j in CHECKS['C05']['jobs']:
+    if _j['name'] in ('wide3_procs', 'wide2_procs'): _j['thorough_only'] = True; _j['limits'] = dict(_j.get('limits', {}), time=3400)      # (neither fits the quick tier's time limit on a shared machine; ParseExitStatus is covered by exit_status, the failure paths of the process layer by C06 wide3_tokens_fail_procs and C20 pools_fail_procs)
+
 # ---- the thorough tier as it is actually run: every job of the quick tier at the same bounds, plus the thorough_only jobs (heavier shapes, built-then-perturbed
 # states, all-subsets edits), plus deeper bounds for the byte-level kernels (C08 C09 C13 C14 C15 C16 C19/json).  Three-invocation histories of *every* pipeline shape
 # (the first version's thorough tier) take many hours on 16 cores and were never run to completion, so they are not what `--tier thorough` means any more; the
